@@ -753,6 +753,96 @@ def r6(F, rep):
         raise AnalysisBroken("only %d calls of atom::apply_force found" % n)
 
 
+# ------------------------------------------------------------------------------------------------ R7
+def is_negation_of(f, a, b):
+    """a == -b  (unary minus, or a product with the literal -1)."""
+    a = X.strip(a)
+    if a["k"] == "UnaryOperator" and a.get("op") == "-":
+        return X.key(X.kids(a)[0], f) == X.key(b, f)
+    if a["k"] == "CXXOperatorCallExpr" and a.get("op") == "-" and len(X.call_args(a)) == 1:
+        return X.key(X.call_args(a)[0], f) == X.key(b, f)
+    args = None
+    if a["k"] == "BinaryOperator" and a.get("op") == "*":
+        args = X.kids(a)
+    elif a["k"] == "CXXOperatorCallExpr" and a.get("op") == "*" and len(X.call_args(a)) == 2:
+        args = X.call_args(a)
+    if args:
+        for i in (0, 1):
+            if C._lit(args[i]) in (-1, -1.0) and X.key(args[1 - i], f) == X.key(b, f):
+                return True
+    return False
+
+
+def negation_diffs(f, a, b):
+    """Number of places where tree b is tree a with an operand negated; None if they differ otherwise."""
+    a, b = X.strip(a), X.strip(b)
+    if X.key(a, f) == X.key(b, f):
+        return 0
+    if is_negation_of(f, a, b) or is_negation_of(f, b, a):
+        return 1
+    ka, kb = X.kids(a), X.kids(b)
+    if a["k"] != b["k"] or a.get("op") != b.get("op") or a.get("cq") != b.get("cq") or len(ka) != len(kb) or not ka:
+        return None
+    total = 0
+    for x, y in zip(ka, kb):
+        d = negation_diffs(f, x, y)
+        if d is None:
+            return None
+        total += d
+    return total
+
+
+def r7(F, rep):
+    rep.rule("C01-R7", "a sign-conditional value needs a sign-conditional derivative: where a component's calc_value() assigns "
+                       "its value in the two arms of a branch that differ only by negating one operand (x = q / x = -q; "
+                       "acos(q0) / acos(-q0)), the function that produces its gradients or forces branches on the same "
+                       "condition")
+    n = 0
+    for cls in sorted(F.subclasses(CVC, strict=True)):
+        own = F.find_method(cls, "calc_value")
+        if not own or own[0].cls != cls:
+            continue
+        f = own[0]
+        for s in f.walk():
+            if s["k"] != "IfStmt":
+                continue
+            cs = s["c"]
+            if len(cs) == 4:
+                cs = cs[1:]
+            cond, then, els = cs[0], cs[1], cs[2] if len(cs) > 2 else None
+            if cond is None or then is None or els is None:
+                continue
+
+            def single_assign(b):
+                ws = [(w, t) for w, t in lvalue_writes(f) if any(a is b for a in f.ancestors(w)) or w is b]
+                ws = [(w, t) for w, t in ws if w["k"] in ("BinaryOperator", "CXXOperatorCallExpr") and w.get("op") == "="]
+                return ws[0] if len(ws) == 1 else None
+            a, b = single_assign(then), single_assign(els)
+            if a is None or b is None or X.key(a[1], f) != X.key(b[1], f) or not X.key(a[1], f).startswith("this.x"):
+                continue
+            ra = X.kids(a[0])[1] if a[0]["k"] == "BinaryOperator" else X.call_args(a[0])[1]
+            rb = X.kids(b[0])[1] if b[0]["k"] == "BinaryOperator" else X.call_args(b[0])[1]
+            if negation_diffs(f, ra, rb) != 1:
+                continue
+            n += 1
+            ck = X.re_strip(X.key(cond, f))
+            found = []
+            for g in closure(F, cls, "calc_gradients") + closure(F, cls, "apply_force"):
+                for x in g.walk():
+                    c2 = None
+                    if x["k"] == "IfStmt":
+                        c2 = x["c"][1] if len(x["c"]) == 4 else x["c"][0]
+                    elif x["k"] == "ConditionalOperator":
+                        c2 = x["c"][0]
+                    if c2 is not None and X.re_strip(X.key(c2, g)) == ck:
+                        found.append(g.q)
+            rep.add("C01-R7", "%s|%s" % (cls, ck[:60]), f.loc(s), "%s::calc_value() negates an operand of its value when `%s` is false; the same test appears in %s" % (
+                cls, ck, sorted(set(found)) or "NO gradient/force function"), bool(found),
+                detail="for the negated arm the derivative has the opposite sign: the applied force is +grad E", func=cls)
+    if n < 2:
+        raise AnalysisBroken("only %d sign-conditional values found (orientation, orientationAngle expected)" % n)
+
+
 def run(F, rep, tier):
     r1(F, rep)
     r2(F, rep)
@@ -760,3 +850,4 @@ def run(F, rep, tier):
     r4(F, rep)
     r5(F, rep)
     r6(F, rep)
+    r7(F, rep)
